@@ -224,13 +224,14 @@ def eval_case(case: dict) -> dict:
             if kind == 'new':
                 text = texts[op[2]]
                 with common.quiet():
-                    obj = DznJsonAst(text.encode('utf-8') if op[3] == 'bytes' else text)
+                    obj = DznJsonAst(text.encode('utf-8') if op[3] == 'bytes' else text,
+                                     verbose=common.verbose_for(text))
                 inst[slot] = {'obj': obj, 'doc': op[2], 'nproc': 0, 'docs_processed': []}
                 count('constructions')
                 max_live = max(max_live, len(inst))
             elif kind == 'new_empty':
                 with common.quiet():
-                    obj = DznJsonAst()
+                    obj = DznJsonAst(verbose=idx % 3 == 0)
                 inst[slot] = {'obj': obj, 'doc': None, 'nproc': 0, 'docs_processed': []}
                 count('constructions')
                 max_live = max(max_live, len(inst))
